@@ -63,6 +63,7 @@ class SModel(KModel):
     def __init__(self, scn):
         super().__init__(scn)
         self.assume_asserts = True      # no rule built on this model claims panic freedom of assertions
+        self.summarises_range_loops = True
         self.n = Rat.const(scn['n']) if scn.get('n') is not None else Rat.atom('n')
         self.arrays = []
         self.thomas_calls = []
@@ -224,7 +225,30 @@ class SModel(KModel):
             raise Unsupported("skip by a non-literal count", e)
         if name in ('std::iter::Iterator::for_each',) and as_rowiter(a0) is not None:
             clo = args[1]
-            return self.iterate_rows(as_rowiter(a0).d['tree'], lambda elem: self.interp.apply(clo, [elem], e), e)
+            return self.loop_call(None, lambda: self.iterate_rows(as_rowiter(a0).d['tree'], lambda elem: self.interp.apply(clo, [elem], e), e))
+        rng, rrev = (a0, False) if isinstance(a0, Enum) and a0.adt == 'std::ops::Range' else \
+            ((a0.d['range'], True) if isinstance(a0, Obj) and a0.kind == 'revrange' else (None, False))
+        if rng is not None and name == 'std::iter::Iterator::for_each':
+            clo = args[1]
+            return self.loop_call(None, lambda: self.iterate_range(rng, rrev, lambda jn: self.interp.apply(clo, [jn], e), e))
+        if rng is not None and name == 'std::iter::Iterator::fold':
+            clo = args[2]
+            fr = Frame()
+            fr.bind('acc#fold', args[1])
+
+            def step(jn):
+                fr.assign('acc#fold', self.interp.apply(clo, [fr.lookup('acc#fold'), jn], e))
+            self.loop_call(fr, lambda: self.iterate_range(rng, rrev, step, e))
+            return fr.lookup('acc#fold')
+        if name == 'std::iter::Iterator::fold' and as_rowiter(a0) is not None:
+            clo = args[2]
+            fr = Frame()
+            fr.bind('acc#fold', args[1])
+
+            def step2(elem):
+                fr.assign('acc#fold', self.interp.apply(clo, [fr.lookup('acc#fold'), elem], e))
+            self.loop_call(fr, lambda: self.iterate_rows(as_rowiter(a0).d['tree'], step2, e))
+            return fr.lookup('acc#fold')
         if name == 'std::clone::Clone::clone' and isinstance(a0, Obj):
             if a0.kind == 'ddim':
                 return Obj('ddim', n=a0.d['n'])
@@ -650,6 +674,10 @@ class SModel(KModel):
                 best = l
         return best
 
+    def loop_call(self, frame, thunk):
+        """a loop written as an iterator consumer (for_each / fold): hook for models that track loop-carried values"""
+        return thunk()
+
     def iterate_rows(self, tree, run_body, e):
         """a loop / for_each over row iterators (std adaptors zip, skip, enumerate over axis_iter(_mut), windows): one inductive step
         with symbolic position j; rows written at position j + c become a generic entry over the index range they cover"""
@@ -708,17 +736,25 @@ class SModel(KModel):
             it = it.d['range']
             rev = True
         if isinstance(it, Enum) and it.adt == 'std::ops::Range':
-            start, end = deref_all(it.fields['start']).r, deref_all(it.fields['end']).r
+            def run_body(jn):
+                if not self.interp.match_pat(pat, ValPlace(jn), frame):
+                    raise Unsupported("loop pattern", e)
+                self.interp.eval(body, frame)
+            return self.iterate_range(it, rev, run_body, e)
+        raise Unsupported("loop over %r is not modelled" % (it,), e)
+
+    def iterate_range(self, rng, rev, run_body, e):
+        """a loop / for_each / fold over an index range: one inductive step with symbolic index j"""
+        if True:
+            start, end = deref_all(rng.fields['start']).r, deref_all(rng.fields['end']).r
             self.loop_vars += 1
             var = 'j%d' % self.loop_vars
             j = Rat.atom(var)
-            if not self.interp.match_pat(pat, ValPlace(Num(j)), frame):
-                raise Unsupported("loop pattern", e)
             # writes inside the body with index == f(j) become generic entries
             snapshot = [(t, dict(t.store)) for t in self.arrays]
             self.cur_loop = {'var': var, 'lo': start, 'hi': end - 1, 'rev': rev, 'where': line_of(e)}
             self.loops = getattr(self, 'loops', []) + [self.cur_loop]
-            self.interp.eval(body, frame)
+            run_body(Num(j))
             for t, before in snapshot:
                 for k, (idx, val) in list(t.store.items()):
                     if k not in before or before[k][1] is not val:
@@ -731,7 +767,6 @@ class SModel(KModel):
                             t.generic[-1]['idx'] = idx
             self.cur_loop = None
             return Unit()
-        raise Unsupported("loop over %r is not modelled" % (it,), e)
 
 
 def cubic_objects():
